@@ -22,8 +22,9 @@ R == Hdr.R
 VARIABLES l,          \* next line of the trace
           snap,       \* hook snapshots (the "st" array) after the previous event
           leakIds,    \* object ids legitimately leaked by mem::forget of an iterator
-          leakAllocs  \* table allocations legitimately leaked the same way
-vars == <<l, snap, leakIds, leakAllocs>>
+          leakAllocs, \* table allocations legitimately leaked the same way
+          ctx         \* attribution context: [postFault, baseline, cloned]
+vars == <<l, snap, leakIds, leakAllocs, ctx>>
 
 HasF(r, f) == f \in DOMAIN r
 CeilDiv(a, d) == (a + d - 1) \div d
@@ -40,7 +41,13 @@ Cont(r) == MainE(r) \cup OldE(r)
 IsSplit(r) == r.sp = 1
 Tables(r) == (IF r.mB > 1 THEN 1 ELSE 0) + r.sp
 
-Chk(props, name, e, cond) == IF cond THEN TRUE ELSE PrintT(<<"MONITOR-FAIL", props, name, l, e.op>>)
+\* context of a failure, for attribution: "postfault" = after an injected panic in this segment (C07:
+\* "later operations behave normally"), "baseline" = fault-free control segment, "cloned" = on a map that
+\* is the product of clone/clone_from in this run (C11: the clone behaves like a map of its own)
+CtxOf(e) ==
+    (IF ctx.baseline THEN "baseline " ELSE "") \o (IF ctx.postFault THEN "postfault " ELSE "")
+    \o (IF "s" \in DOMAIN e /\ (e.s \in ctx.cloned \/ ("d" \in DOMAIN e /\ e.d \in ctx.cloned)) THEN "cloned" ELSE "")
+Chk(props, name, e, cond) == IF cond THEN TRUE ELSE PrintT(<<"MONITOR-FAIL", props, name, l, e.op, CtxOf(e)>>)
 
 Panicked(e) == e.res.t = "panic"
 \* table allocations made by the call (not measurable while rayon worker threads are alive)
@@ -924,7 +931,8 @@ LeakOf(e) ==
          [ids |-> ToSet(e.led.new) \ (AllIds(e.st) \cup ToSet(e.led.drop)), allocs |-> 0]
     ELSE [ids |-> {}, allocs |-> 0]
 
-Init == /\ l = 2 /\ snap = <<>> /\ leakIds = {} /\ leakAllocs = 0
+Ctx0 == [postFault |-> FALSE, baseline |-> FALSE, cloned |-> {}]
+Init == /\ l = 2 /\ snap = <<>> /\ leakIds = {} /\ leakAllocs = 0 /\ ctx = Ctx0
 
 Step ==
     /\ l <= Len(Rec)
@@ -932,14 +940,15 @@ Step ==
        CASE e.op = "Reset" ->
                 \* the object ledger is global to the process; the allocation counter is re-based
                 /\ snap' = <<>> /\ leakIds' = leakIds /\ leakAllocs' = 0
-         [] e.op = "Skip" -> UNCHANGED <<snap, leakIds, leakAllocs>>
+                /\ ctx' = [Ctx0 EXCEPT !.baseline = HasF(e, "baseline")]
+         [] e.op = "Skip" -> UNCHANGED <<snap, leakIds, leakAllocs, ctx>>
          [] e.op = "Snap" ->
                 \* state reached by a silently replayed prefix (crash-point enumeration)
                 /\ GlobalMon(e, leakAllocs) = TRUE
-                /\ snap' = e.st /\ leakIds' = ToSet(e.leaked) /\ UNCHANGED leakAllocs
+                /\ snap' = e.st /\ leakIds' = ToSet(e.leaked) /\ UNCHANGED <<leakAllocs, ctx>>
          [] e.op = "EndRun" ->
                 /\ Chk("C06", "nothing_leaks", e, ToSet(e.live_ids) = leakIds /\ (HasF(e, "par") \/ e.live_allocs = leakAllocs)) = TRUE
-                /\ UNCHANGED <<snap, leakIds, leakAllocs>>
+                /\ UNCHANGED <<snap, leakIds, leakAllocs, ctx>>
          [] OTHER ->
                 LET lk == LeakOf(e) IN
                 \* (= TRUE: evaluated as one expression, never decomposed into sub-actions)
@@ -948,6 +957,8 @@ Step ==
                 /\ snap' = e.st
                 /\ leakIds' = leakIds \cup lk.ids
                 /\ leakAllocs' = leakAllocs + lk.allocs
+                /\ ctx' = [ctx EXCEPT !.postFault = @ \/ (Faulted(e) /\ e.fault.fired = 1),
+                                      !.cloned = IF e.op \in {"Clone", "CloneFrom"} THEN @ \cup {e.d} ELSE @]
     /\ l' = l + 1
 
 Spec == Init /\ [][Step]_vars
